@@ -65,7 +65,8 @@ def cases(tier, seed):
             masks.append(cells)  # everything NaN
             for mask in masks:
                 for ztype, variant in itertools.product(
-                        ("num", "str"), ("z", "multi", "yerr", "c", "grid")):
+                        ("num", "str"),
+                        ("z", "multi", "yerr", "c", "grid", "xvar")):
                     j += 1
                     hk = [kind, nx, nz, mask, ztype, variant]
                     if tier == "quick" and core.pick(hk + ["thin"], 4):
@@ -186,6 +187,11 @@ def make_line_ds(case):
     xe[0, nz - 1] = np.inf
     data["ye"] = (dims, ye)
     data["xe"] = (dims, xe)
+    # x given by a variable over the same dimensions, stored in another order
+    xv = np.empty(shape)
+    for idx in np.ndindex(*shape):
+        xv[idx] = XS[idx[0]] + 0.01 * idx[1] + 0.001 * idx[2] + 0.0001 * idx[3]
+    data["xv"] = (["z", "x", "r", "q"], xv.transpose(1, 0, 2, 3))
     data["cline"] = (("z",), np.array([1.5 + 2.0 * i for i in range(nz)]))
     data["cpt"] = (dims, 1.0 + np.arange(y.size).reshape(shape) * 0.5)
     if case["variant"] == "multi":
@@ -305,6 +311,9 @@ def check_lines(case):
     if variant == "multi":
         args = (ds, "x", tuple("y%d" % v for v in range(nz)))
         labels = ["y%d" % v for v in range(nz)]
+    elif variant == "xvar":
+        args = (ds, "xv", "y", "z")
+        labels = [str(z) for z in zs]
     else:
         args = (ds, "x", "y", "z")
         labels = [str(z) for z in zs]
@@ -371,6 +380,9 @@ def check_lines(case):
                     (iq,) if nq == 2 else ())
                 yy = yarr[sl]
                 xx = np.array(XS[:nx])
+                if variant == "xvar":
+                    xx = before["xv"].transpose(*canon).values.reshape(
+                        yarr.shape)[sl]
                 ok = np.isfinite(yy) & np.isfinite(xx)
                 want = np.column_stack([xx[ok], yy[ok]])
                 got = pts[iz]
